@@ -59,6 +59,14 @@ def handle : Handler := fun j a => do
     if acts.isEmpty then
       let t := match i.timer with | some t => t | none => i.now
       if !(unreach > 0 && i.now - t ≤ cfg.inactivationDelay) then a := a.violationSig "C08:not-fenced-and-not-entitled-to-postpone" j.compress
+  -- a lost master that has to be fenced IS read-only afterwards whenever the server would obey: at once, or — when the
+  -- request hangs behind commits that wait for an acknowledgement — after semi-sync has been switched off
+  if !exempt && !ssFails && !acts.isEmpty then
+    let roKind := jIntOr ij "ro_kind" 0
+    let ackKind := jIntOr ij "ack_kind" 0
+    let stopFault := jIntOr ij "stop_fault" 0
+    let obeys := roKind ≤ 1 || (roKind == 5 && (ackKind == 1 || ackKind == 3) && stopFault == 0)
+    if obeys && !roAfter then a := a.violationSig "C08:lost-node-left-writable-although-the-server-would-obey" j.compress
   a := a.note (!acts.isEmpty)
   a := a.tag (if i.connected then "c08:reconnected" else if exempt then "c08:exempt" else if acts.isEmpty then "c08:postponed" else "c08:fenced")
   a := if acts.contains "semiSyncDisable" then a.tag "c08:stuck-commit-handling" else a
